@@ -164,9 +164,10 @@ CHECKS["C24"] = dict(
         dict(name="harness_c24_det_inv", quick={"n": 2, "B": 1, "nsym": 4}, thorough={"n": 3, "B": 2, "nsym": 3, "_wall": 1700}),
         dict(name="harness_c24_factor", quick={"n": 2, "B": 2, "nsym": 4}, thorough={"n": 3, "B": 2, "nsym": 3, "_wall": 1700}),
         dict(name="harness_c24_rank", quick={"B": 1}, thorough={"B": 2}),
+        dict(name="harness_c24_pivot3", quick={"B": 1}, thorough={"B": 2, "_wall": 2400}),
     ],
     anchors=["SymEngine::det_bareis", "SymEngine::det_berkowitz", "SymEngine::inverse_fraction_free_LU", "SymEngine::inverse_gauss_jordan", "SymEngine::pivoted_LU", "SymEngine::fraction_free_LDU", "SymEngine::reduced_row_echelon_form", "SymEngine::LDL"],
-    bounds="quick: 2x2 matrices with 4 symbolic integer entries |a|<=2; thorough: 3x3 with 3 symbolic entries |a|<=2 and 6 entries enumerated from {0,1,-1,2}; determinants (bareis, berkowitz, det) against Leibniz, 4 inverse algorithms (A*B==I both ways), 3 solvers with symbolic right-hand sides, pivoted LU (P A == L U), LU, fraction-free LDU, LDL on symmetric inputs, transpose, sums; rank and rref of 2x3 matrices |a|<=1 (2) against minors",
+    bounds="quick: 2x2 matrices with 4 symbolic integer entries |a|<=2; thorough: 3x3 with 3 symbolic entries |a|<=2 and 6 entries enumerated from {0,1,-1,2}; determinants (bareis, berkowitz, det) against Leibniz, 4 inverse algorithms (A*B==I both ways), 3 solvers with symbolic right-hand sides, pivoted LU (P A == L U), LU, fraction-free LDU, LDL on symmetric inputs, transpose, sums; rank and rref of 2x3 matrices |a|<=1 (2) against minors; 3x3 systems [[1,a,b],[1,a,c],[d,e,f]] with b, c and the right-hand side symbolic, a, d, e, f enumerated, |.|<=1 (2), whose second pivot vanishes (row exchange after the first elimination step): Gauss-Jordan solve, pivoted LU solve, Gauss-Jordan inverse",
     outside=["QR and Cholesky (radical entries)", "characteristic polynomial", "Gaussian-rational entries", "sizes above 3x3"],
 )
 
@@ -175,9 +176,10 @@ CHECKS["C10"] = dict(
     entries=[
         dict(name="harness_c10_diff", quick={"depth": 1}, thorough={"depth": 2, "_wall": 1700}),
         dict(name="harness_c10_chain", quick={}, thorough={}),
+        dict(name="harness_c10_linear", quick={"symB": 3}, thorough={"symB": 6}),
     ],
     anchors=["SymEngine::DiffVisitor", "SymEngine::Basic::diff"],
-    bounds="all operator trees of depth <= 1 (thorough 2) over leaves {x, y, positive p, numbers 2, -1/2, 3, a symbolic integer in [-3,3]}, unary {neg, integer powers 2,3,-1,-2, rational powers of p (1/2,-1/2,2/3,5/4), sin, cos, tan, exp, log, sinh, cosh, tanh, atan}, binary {+,-,*,/}; derivative with respect to x, y or p compared with forward-mode dual numbers for all real x, y and positive p (elementary functions uninterpreted with Pythagoras/exp axioms); cache on/off; absent symbol; chain rule for an undefined f(g(x))",
+    bounds="all operator trees of depth <= 1 (thorough 2) over leaves {x, y, positive p, numbers 2, -1/2, 3, a symbolic integer in [-3,3]}, unary {neg, integer powers 2,3,-1,-2, rational powers of p (1/2,-1/2,2/3,5/4), sin, cos, tan, exp, log, sinh, cosh, tanh, atan}, binary {+,-,*,/}; derivative with respect to x, y or p compared with forward-mode dual numbers for all real x, y and positive p (elementary functions uninterpreted with Pythagoras/exp axioms); cache on/off; absent symbol; chain rule for an undefined f(g(x)); linear combinations c1*f(x) + c2*g(x) + y and c1*f(x) + c2*x*g(x) + y with symbolic integer c1, c2 in [-3,3] (6) and f, g from {tan, tanh, cot, sin, exp, log, atan, cube}",
     outside=["points of non-differentiability / singularities (pruned)", "polynomial classes, Derivative-of-Derivative, special functions beyond those listed"],
     assumptions=["oracle D2 (vlib/veval.h, vlib/vrecipe.h): node meanings over the reals; real-valued abstraction of floating point"],
 )
